@@ -117,6 +117,24 @@ func c20Program(seed uint64, steps int) *transcript {
 			txt, merr := it.MarshalJSON()
 			leave(false)
 			t.add("parse", txt, []byte(fmt.Sprint(merr)))
+		case op < 9 && cur != nil && r.Chance(1, 3):
+			// a goroutine's own object handed in by value (the parser state stays attached whatever
+			// the outcome): a large document that stage 2 rejects at its first token while stage 1 has
+			// dozens of index buffers to go, and straight after it a valid document into the same object
+			held := *cur
+			bad := append([]byte("[tru,"), gen.Aperiodic(r.Split(), 1408*3/2*r.Range(18, 40), 2)[1:]...)
+			enter(false)
+			_, e1 := simdjson.Parse(bad, &held)
+			d2 := gen.Aperiodic(r.Split(), []int{60, 4500, 30000}[r.Intn(3)], r.Intn(3))
+			pj2, e2 := simdjson.Parse(d2, &held)
+			leave(false)
+			var txt []byte
+			if e2 == nil {
+				it := pj2.Iter()
+				txt, _ = it.MarshalJSON()
+			}
+			t.add("reject-then-parse-by-value", []byte(fmt.Sprint(e1 != nil, e2 != nil)), txt)
+			cur = nil
 		case op < 9: // ParseND
 			var b bytes.Buffer
 			for i := 0; i < 1+r.Intn(40); i++ {
